@@ -185,3 +185,16 @@ Print Assumptions C08_get_target_ignores_high_word_refuted.
 Theorem C08_get_target_partial : forall d, 1 <= d -> d < two64 -> get_target d = Ok (max_u64 / d).
 Proof. exact get_target_partial. Qed.
 Print Assumptions C08_get_target_partial.
+
+(* ---- the retarget that validation demands is this function ----
+   The node model (Model/Node.v: check_block demands b_diff = get_next_difficulty of the parent; every node-level
+   theorem of C04/C05/C09/C10 speaks about that one) carries its own, independently written transcription of
+   GetNextDifficulty over plain N arithmetic.  It computes the same outcome (value, or panic) as the word-level
+   transcription above, for every parent height >= 2 (below 2 both return the minimum), every timestamp and every
+   128-bit difficulty: the theorems of this file are theorems about the difficulty the block rules enforce. *)
+From Virel Require Model.Node Proofs.DifficultyLink.
+Theorem C08_node_model_uses_this_retarget : forall cfg, cfg_ok_difficulty cfg = true ->
+  forall h ts d gts, 2 <= h -> ts < two64 -> d < two128 ->
+  DifficultyLink.same_outcome (Node.next_difficulty cfg h ts d gts) (next_difficulty cfg h ts d gts).
+Proof. exact DifficultyLink.next_difficulty_agree. Qed.
+Print Assumptions C08_node_model_uses_this_retarget.
